@@ -791,6 +791,7 @@ func runC09(c *fw.Ctx) {
 		c09Case(c, r, i, true)
 	})
 	c.Cases("scenarios", c.N(2000, 800000), false, func(i int, r *rng.R) { c09Case(c, r, -1, false) })
+	c.Cases("first-results", c.N(60, 6000), true, func(i int, r *rng.R) { c09FirstResults(c, i, r) })
 	c.Cases("ranges-of-full-lists", c.N(120, 12000), true, func(i int, r *rng.R) { c09RangesOfFullLists(c, i, r) })
 	c.Cases("paging", c.N(60, 6000), false, func(i int, r *rng.R) { c09Paging(c, r) })
 	c.Cases("paging-objects", c.N(40, 4000), false, func(i int, r *rng.R) { c09PagingObjects(c, r) })
@@ -1467,6 +1468,113 @@ func c09RangesOfFullLists(c *fw.Ctx, i int, r *rng.R) {
 			if !look(desc) {
 				return
 			}
+		}
+	})
+}
+
+// c09FirstResults: the very first result of a deriving call on a container nobody has looked at yet (and the first one
+// after every change of the receiver) is written to, and the call is made again: the second result describes the
+// receiver, not what was done to the first.
+func c09FirstResults(c *fw.Ctx, i int, r *rng.R) {
+	n := []int{0, 1, 2, 3, 5, 8}[i%6]
+	keys := make([]string, n)
+	pairs := make([]any, 0, 2*n)
+	vals := make([]any, n)
+	for j := range keys {
+		keys[j] = fmt.Sprintf("k%d", j)
+		vals[j] = 10 + j
+		pairs = append(pairs, keys[j], vals[j])
+	}
+	var trace []string
+	in := func() string {
+		return fmt.Sprintf("a fresh container with %d int fields / elements that nothing has read yet; %s", n, strings.Join(trace, "; "))
+	}
+	scribble := func(l at.List) {
+		drive.Protect(func() {
+			l.Add("scribbled")
+			if l.Count() > 1 {
+				l.Reverse()
+				l.Delete(0)
+			}
+			l.Insert(0, "scribbled too")
+		})
+	}
+	guard(c, in, func() {
+		c.Distinct(fmt.Sprintf("first results %d", i))
+		o := at.NewObject(pairs...)
+		l := at.NewList(vals...)
+		type op struct {
+			name string
+			call func() at.List
+			want func() []string
+		}
+		sorted := func(x at.List) []string {
+			var out []string
+			drive.Protect(func() {
+				for j := 0; j < x.Count(); j++ {
+					out = append(out, fmt.Sprintf("%T:%v", x.Get(j), x.Get(j)))
+				}
+			})
+			sort.Strings(out)
+			return out
+		}
+		curKeys := append([]string{}, keys...)
+		curVals := append([]any{}, vals...)
+		lvals := append([]any{}, vals...)
+		wantOf := func(vs []any) []string {
+			var out []string
+			for _, v := range vs {
+				out = append(out, fmt.Sprintf("%T:%v", v, v))
+			}
+			sort.Strings(out)
+			return out
+		}
+		ops := []op{
+			{"Object.Keys()", func() at.List { return o.Keys() }, func() []string {
+				var vs []any
+				for _, k := range curKeys {
+					vs = append(vs, k)
+				}
+				return wantOf(vs)
+			}},
+			{"Object.Values()", func() at.List { return o.Values() }, func() []string { return wantOf(curVals) }},
+			{"List.SubList(0,0)", func() at.List { return l.SubList(0, 0) }, func() []string { return wantOf(lvals) }},
+			{"List.Concat(empty)", func() at.List { return l.Concat(at.NewList()) }, func() []string { return wantOf(lvals) }},
+			{"List.Filter(all)", func() at.List { return l.Filter(func(any) bool { return true }) }, func() []string { return wantOf(lvals) }},
+			{"List.Map(identity)", func() at.List { return l.Map(func(_ int, v any) any { return v }) }, func() []string { return wantOf(lvals) }},
+			{"List.Clone()", func() at.List { return l.Clone() }, func() []string { return wantOf(lvals) }},
+		}
+		for round := 0; round < 3; round++ {
+			for _, k := range r.Perm(len(ops)) {
+				d := ops[k]
+				first := d.call()
+				scribble(first)
+				trace = append(trace, d.name+" -> written to; "+d.name+" again")
+				c.Count("first_results_written_to")
+				second := d.call()
+				if got, want := sorted(second), d.want(); fmt.Sprint(got) != fmt.Sprint(want) {
+					c.Violate("derived-result-stale:"+d.name, in(), fmt.Sprint(want), fmt.Sprint(got))
+					return
+				}
+				scribble(second)
+				third := d.call()
+				if got, want := sorted(third), d.want(); fmt.Sprint(got) != fmt.Sprint(want) {
+					c.Violate("derived-result-stale:"+d.name, in()+"; and once more", fmt.Sprint(want), fmt.Sprint(got))
+					return
+				}
+			}
+			// the receivers change (an overwrite that keeps the key set, then a new key / element): the next results are first ones again
+			if len(curKeys) > 0 {
+				o.Set(curKeys[0], 500+round)
+				curVals[0] = 500 + round
+				trace = append(trace, fmt.Sprintf("o.Set(%q, %d)", curKeys[0], 500+round))
+			}
+			nk := fmt.Sprintf("new%d", round)
+			o.Set(nk, 600+round)
+			curKeys, curVals = append(curKeys, nk), append(curVals, 600+round)
+			l.Add(700 + round)
+			lvals = append(lvals, 700+round)
+			trace = append(trace, fmt.Sprintf("o.Set(%q, %d); l.Add(%d)", nk, 600+round, 700+round))
 		}
 	})
 }
